@@ -1,5 +1,5 @@
 import random, signal, sys
-src=open('/tmp/probe/p15.py').read().split("rng=random.Random(int(sys.argv[1])); bad=0")[0]
+src=open(__import__('os').path.join(__import__('os').path.dirname(__import__('os').path.abspath(__file__)),'p15.py')).read().split("rng=random.Random(int(sys.argv[1])); bad=0")[0]
 exec(src)
 def sets(sd):
     nodes=set(canon(sd.node_data(i)["space"]) for i in sd.node_ids())
